@@ -154,12 +154,24 @@ PlanAlpha == { Mov("out", <<>>), Mov("outE", <<>>), Mov("in", <<>>), Mov("inE", 
 \* long walks: moves only, then path/select - exercises traveler copying (path, marks) under fan-out
 PathAlpha == { Mov("out", <<>>), Mov("in", <<>>), Mov("both", <<>>), Mov("outE", <<>>), AsS("m"), St("path"), SelS(<<"m">>), St("count") }
 
+\* load-elision patterns: several filters and readers inside one step, followed by another move or count
+AllLabels == <<"K1", "K2", "L1", "L2">>
+ElideAlpha == { Mov("outE", <<>>), Mov("out", <<>>), Mov("inE", <<>>), HasLabelS(AllLabels), HasLabelS(<<"K1", "L1">>),
+                HasS(C("eq", RX, N(1)), {}), HasKeyS(<<RW>>), HasKeyS(<<RX>>), St("count"), AsS("m"), SelS(<<"m">>) }
+
+\* equivalent spellings of id/label filters, each followed by one more statement
+SpellAlpha == Spellings \cup { HasLabelS(<<"L1">>), HasIdS(<<"a">>), HasS(C("eq", RLabel, S("L1")), {}), HasS(C("eq", RGid, S("a")), {}),
+                              HasS(C("within", RLabel, L(<<S("L1")>>)), {}), HasS(C("eq", RX, N(1)), {}), Mov("out", <<>>), Mov("outE", <<>>), St("count") }
+
 Alphabet == IF Alpha = "plan" THEN PlanAlpha
+            ELSE IF Alpha = "spell" THEN SpellAlpha
+            ELSE IF Alpha = "elide" THEN ElideAlpha
             ELSE IF Alpha = "path" THEN PathAlpha
             ELSE Moves \cup Filters \cup Marks \cup Projs \cup Truncs
                  \cup (IF Alpha = "wide" THEN MovesW \cup FiltersW \cup MarksW \cup ProjsW \cup TruncsW \cup Spellings ELSE {})
 
-Starts == { StartS("V", <<>>), StartS("E", <<>>), StartS("V", <<"a">>) }
+Starts == (IF Alpha = "elide" THEN { StartS("V", <<>>), StartS("E", <<>>) }
+           ELSE { StartS("V", <<>>), StartS("E", <<>>), StartS("V", <<"a">>) })
           \cup (IF Alpha = "wide" THEN { StartS("V", <<"b", "a", "z">>), StartS("E", <<"e1">>), StartS("E", <<"e2", "zz">>) } ELSE {})
 
 \* representatives of every rejection rule (ill-typed statements)
